@@ -216,17 +216,36 @@ def _to_svars(j, chosen, tysig):
     return j
 
 
+def _leaves_under_binders(j, bound=(), path=()):
+    """(path, node, enclosing binder types) for variable / constant leaves."""
+    tag = j[0]
+    if tag in ('v', 'c'):
+        yield path, j, bound
+    elif tag == 'app':
+        yield from _leaves_under_binders(j[1], bound, path + (1,))
+        yield from _leaves_under_binders(j[2], bound, path + (2,))
+    elif tag == 'abs':
+        yield from _leaves_under_binders(j[3], (j[2],) + tuple(bound), path + (3,))
+
+
 def _mutate(draw, st, t, opts):
-    from props.c03_terms import _paths, _replace
-    nodes = [(p, n) for p, n in _paths(t) if n[0] in ('v', 'c')]
-    if not nodes:
-        return t
-    p, node = draw(st.sampled_from(nodes))
+    from props.c03_terms import _replace
+    leaves = list(_leaves_under_binders(t))
+    if not leaves:
+        return t, 'none'
+    # prefer: a leaf under a binder of its own type becomes that BOUND variable (the target then mentions a bound
+    # variable where the instance had a free one - the bound-variable escape / capture cases of the matcher)
+    cands = [(p, n, b) for p, n, b in leaves if n[2] in b]
+    if cands and draw(st.integers(0, 2)) != 0:
+        p, n, b = draw(st.sampled_from(cands))
+        idx = [i for i, T in enumerate(b) if T == n[2]]
+        return _replace(t, p, ['b', draw(st.sampled_from(idx))]), 'to-bound'
+    p, node, b = draw(st.sampled_from(leaves))
     if node[0] == 'v':
         new = ['v', draw(st.sampled_from(opts.names)), node[2]]
     else:
         new = ['v', 'k', node[2]]
-    return _replace(t, p, new)
+    return _replace(t, p, new), 'leaf'
 
 
 def case_strategy():
@@ -326,7 +345,7 @@ def case_strategy():
             expect = False
         mode = draw(st.sampled_from(['exact', 'exact', 'exact', 'mut']))
         if mode == 'mut' and klass not in ('unrelated', 'unrelated-type'):
-            target = _mutate(draw, st, target, opts)
+            target, how = _mutate(draw, st, target, opts)
             expect = False
             klass = klass + ':mut'
         return {'pat': pat, 't': target, 'seed': seed, 'klass': klass, 'expect_success': expect}
